@@ -2176,6 +2176,40 @@ def gen_tb_refused_ownership(seed, mode="loop"):
     return sc
 
 
+def gen_path_gone(seed, mode="loop"):
+    """C20: path sources whose watch cannot be set because the directory is gone - registered on a running module after the
+    directory was removed, or registered first and re-added to the poll set (resume, stop/start) after it was removed:
+    whether the library accepts or refuses them, every descriptor it opened for them is closed in the end"""
+    r = random.Random(seed * 199 + 179)
+    sc = Sc(mode, "path sources on a directory that is gone seed=%d" % seed)
+    driven_skeleton(sc)
+    M = 1
+    sc.mod(M, "watcher", 0, r.choice([0, 4]))
+    sc.cb(M, "stop", "*", [])
+    sc.cb(M, "evt", "*", [])
+    sc.paths = 2
+    sc.main += [("reg", M), ("start", M)]
+    variant = r.choice(["register_missing", "resume_missing", "restart_missing"])
+    fl = r.choice([0, SRC_DUP])
+    steps = [[]]
+    if variant == "register_missing":
+        steps.append([("rmpath", 0)] + [("path_reg", M, 0, fl, sc.ud(), 256) for _ in range(r.randrange(1, 4))] + [("srclen", M)])
+        steps.append([("path_reg", M, 1, fl, sc.ud(), 256), ("touch", 1)])
+    elif variant == "resume_missing":
+        steps.append([("path_reg", M, 0, fl, sc.ud(), 256), ("pause", M), ("rmpath", 0)])
+        for _ in range(r.randrange(1, 4)):
+            steps.append([("resume", M), ("srclen", M)])
+            steps.append([("pause", M)])
+        steps.append([("resume", M)])
+    else:
+        steps.append([("path_reg", M, 0, fl, sc.ud(), 256), ("rmpath", 0), ("pause", M), ("resume", M), ("srclen", M)])
+        steps.append([("path_dereg", M, 0), ("path_reg", M, 0, fl, sc.ud(), 256)])
+    steps += [[], [r.choice([("stop", M), ("dereg", M), ("srclen", M)])], []]
+    driven_finish(sc, steps, rng=r)
+    finalize_main(sc)
+    return sc
+
+
 _M64 = (1 << 64) - 1
 
 
